@@ -75,7 +75,20 @@ impl<'a> G<'a> {
         if d == 0 {
             return if !ints.is_empty() && self.r.chance(1, 2) { self.r.pick(&ints).clone() } else { self.lit() };
         }
-        match self.r.below(39) {
+        match self.r.below(41) {
+            39 | 40 => {
+                // a repeated identifier whose two occurrences sit in the same nested tuple (common
+                // path prefix): the equality check usually FAILS at run time
+                self.feat("repeated-identifier-shared-prefix");
+                let (a, b2, c) = (self.int(d - 1), self.int(d - 1), self.int(d - 1));
+                match self.r.below(5) {
+                    0 => format!("[[{a}, {b2}], {c}] {{ =[[ra, ra], rb] => rb | 0 }}"),
+                    1 => format!("[{c}, [[{a}, {b2}], 4]] {{ =[_, [[rp, rp], rq]] => [rp, rq] __integer_add__ | 0 }}"),
+                    2 => format!("{{ rg = #[['int, 'int], 'int] {{ =[[ra, ra], rb] => rb | 0 }}, {c} ~> [[[{a}, {b2}], 3] rg, ~] .1 | 0 }}"),
+                    3 => format!("[[{a}, {a}], [{b2}, {c}]] {{ | =[[ra, ra], [rb, rb]] => ra | =[[ra, ra], [rb, rc]] => [ra, rc] __integer_add__ | 0 }}"),
+                    _ => format!("[[{a}, {b2}, {a}], {c}] {{ =[[rx, _, rx], ry] => [rx, ry] __integer_add__ | {c} }}"),
+                }
+            }
             37 | 38 => {
                 // a branch CONDITION that is a multi-step sequence: a step that may be nil (so the
                 // condition short-circuits to its end with fewer locals), then a binding, and the
@@ -824,7 +837,35 @@ pub fn session(r: &mut Rng, ev: &mut Ev) -> Vec<String> {
 /// One program. Records the constructs used as `gen:<feature>` counters.
 pub fn program(r: &mut Rng, ev: &mut Ev) -> String {
     let mut g = G { r, vars: vec![], next: 0, param: None, feats: vec![] };
-    let mut steps: Vec<String> = g.functions();
+    let mut steps: Vec<String> = vec![];
+    if g.r.chance(1, 4) {
+        // partial types that stay reachable, registered AFTER types only unused code mentions (so a
+        // tree shake renumbers the types the partial type's fields refer to)
+        g.feat("partial-type-after-unused-types");
+        let k = g.r.range(1, 9);
+        match g.r.below(3) {
+            0 => {
+                steps.push("'pu1 = Foo['bin, Bar['int]]".into());
+                steps.push("'phx = (x: Cel['int])".into());
+                steps.push("ppf = #(A[x: Cel['int]] | A[x: 'bin]) { ='phx => 1 | 0 }".into());
+                steps.push(format!("pr1 = [A[x: Cel[{k}]] ppf, A[x: 0xff] ppf] .0"));
+            }
+            1 => {
+                steps.push("pun = #Foo['bin, Bar['int]] { 1 }".into());
+                steps.push("ppg = #(x: Cel['int]) { $.x.0 }".into());
+                steps.push(format!("pr1 = A[x: Cel[{k}]] ppg"));
+            }
+            _ => {
+                steps.push("'pu2 = Baz[Qux['bin], 'int] | Quux['bin]".into());
+                steps.push("pun = #'pu2 { 2 }".into());
+                steps.push("'phy = (y: Cel['int])".into());
+                steps.push("pph = #(P[x: 'int, y: Cel['int]] | P[x: 'int, y: 'bin]) { | ='phy => $.x | 0 }".into());
+                steps.push(format!("pr1 = [P[x: {k}, y: Cel[3]] pph, P[x: 1, y: 0x00] pph] .0"));
+            }
+        }
+        g.vars.push(Var { name: "pr1".into(), kind: Kind::Int });
+    }
+    steps.extend(g.functions());
     let n = 1 + g.r.usize(4);
     for i in 0..n {
         let d = 1 + g.r.usize(3);
